@@ -725,6 +725,9 @@ func init() {
 					r.Count("real_thread_iterations", it)
 					r.Eval(it)
 				}
+				if strings.HasPrefix(line, "RACE-INCONCLUSIVE ") {
+					r.Inconclusive("real-thread stress: " + strings.TrimPrefix(line, "RACE-INCONCLUSIVE "))
+				}
 				if strings.HasPrefix(line, "RACE-VIOLATION ") {
 					parts := strings.SplitN(strings.TrimPrefix(line, "RACE-VIOLATION "), "|", 3)
 					if len(parts) == 3 {
@@ -748,7 +751,10 @@ func init() {
 		fmt.Sscanf(os.Getenv("VERIF_RACE_ITERS"), "%d", &iters)
 		total, viols := 0, 0
 		for _, w := range workloads(true) {
-			if w.ExpectDeadlock {
+			if w.ExpectDeadlock != (os.Getenv("VERIF_RACE_SELFTEST") != "") {
+				// VERIF_RACE_SELFTEST=1 (development aid) runs only the
+				// workload with the known opposite-order deadlock, to show
+				// that the lock-table detector fires on real threads.
 				continue
 			}
 			seqOuts := sequentialOutcomes(w)
@@ -780,13 +786,41 @@ func init() {
 					}(i, rq)
 				}
 				go func() { wg.Wait(); close(done) }()
-				select {
-				case <-done:
-				case <-time.After(60 * time.Second):
-					fmt.Printf("RACE-VIOLATION hang|%s|requests did not return within 60 s on real threads (iteration %d)\n", w.Name, it)
-					viols++
-					fmt.Printf("RACE-STRESS iterations=%d violations=%d\n", total, viols)
-					return 0
+				// The verdict on "never returns" is logical: the lock table
+				// shows a stable wait-for cycle or a leaked lock. The wall
+				// clock only bounds how long a slow run is waited for, and
+				// its firing is inconclusive.
+				tick := time.NewTicker(20 * time.Millisecond)
+				started := time.Now()
+				finished := false
+				for !finished {
+					select {
+					case <-done:
+						finished = true
+					case <-tick.C:
+						if dl, why := world.RealDeadlock(); dl {
+							tick.Stop()
+							fmt.Printf("RACE-VIOLATION deadlock|%s|iteration %d: %s\n", w.Name, it, why)
+							viols++
+							fmt.Printf("RACE-STRESS iterations=%d violations=%d\n", total, viols)
+							return 0
+						}
+						if time.Since(started) > 10*time.Minute {
+							tick.Stop()
+							buf := make([]byte, 1<<20)
+							buf = buf[:runtime.Stack(buf, true)]
+							fmt.Printf("RACE-INCONCLUSIVE %s iteration %d: requests still running after 10 min without a lock-table deadlock; goroutines: %s\n", w.Name, it, strings.ReplaceAll(string(buf), "\n", " / "))
+							fmt.Printf("RACE-STRESS iterations=%d violations=%d\n", total, viols)
+							return 0
+						}
+					}
+				}
+				tick.Stop()
+				for i, rp := range resps {
+					if rp.Panic != "" {
+						viols++
+						fmt.Printf("RACE-VIOLATION panic|%s|iteration %d request %d panicked at %s: %s\n", w.Name, it, i, sim.PanicSite(rp.Stack), rp.Panic)
+					}
 				}
 				total++
 				got := readCols(world.Snapshot(), w.Cols)
